@@ -49,7 +49,8 @@ def net(ctx, nif, namelen, raw=None):
             v = [ctx.int(f"c{i}_{j}", 0, 2**64 - 1) for j in range(16)]
             names.append(rn.decode(_common.ENCODING, _common.ENCODING_ERRS))
             vals.append(v)
-            content += b"  " + rn + b": " + b" ".join(k.num(x) for x in v) + b"\n"
+            # the kernel prints `%6s:%8llu`: no blank after the colon once the first counter has 8+ digits
+            content += b"  " + rn + (b":" if ctx.flag(f"tight{i}") else b": ") + b" ".join(k.num(x) for x in v) + b"\n"
         k.files["/proc/net/dev"] = content
         nif = len(raw)
         # the last interface is a port of a bond/bridge: it is still an interface the kernel lists, and counts in the total
@@ -143,6 +144,13 @@ def disks(ctx, layouts, names=None):
 
     k.files["/proc/diskstats"] = "".join(lines)
     k.dirs["/sys/block"] = []
+    if not layouts and ctx.flag("sysfs_shows_a_disk_diskstats_does_not_list"):
+        # /proc/diskstats is the table the statement is about: when it lists nothing, nothing is reported -- whatever a (container's)
+        # /sys/block shows
+        k.dirs["/sys/block"] = ["sdz"]
+        k.dirs["/sys/block/sdz"] = ["stat", "dev"]
+        k.files["/sys/block/sdz/stat"] = " ".join(str(100 + j) for j in range(17)) + "\n"
+        k.files["/sys/block/sdz/dev"] = "8:0\n"
     with k.installed():
         per = psutil.disk_io_counters(perdisk=True, nowrap=False)
         tot = psutil.disk_io_counters(perdisk=False, nowrap=False)
